@@ -1,7 +1,7 @@
 (* C04 — A (sub-)circuit's duration spans everything it contains. *)
 From Coq Require Import ZArith List Bool Permutation.
 Import ListNotations.
-From QCE Require Import Base.Prelude Core.Model Core.BfsProofs Core.BfsWf Core.TimesProofs Core.TimesListing C04.Run C04.Proofs.
+From QCE Require Import Base.Prelude Core.Model Core.BfsProofs Core.BfsWf Core.TimesProofs Core.TimesListing Core.Run Core.EnvIndep C04.Run C04.Proofs.
 From Gen Require Import Ident Classes.
 Open Scope Z_scope.
 
@@ -64,3 +64,11 @@ Print Assumptions C04_program_span_all.
 Print Assumptions C04_unrolled_span_all.
 Print Assumptions C04_env_ok_of_globals.
 Print Assumptions C04_followers.
+
+(* a circuit built -- and unrolled -- under settings e1 and then observed under settings e2 reports exactly what a circuit built
+   under e2 reports: building never consults the settings (Core/EnvIndep.v) *)
+Theorem C04_observation_after_settings_change_comparable : forall e1 e2 p,
+  model_obs e2 (run_prog e1 p) = model_obs e2 (run_prog e2 p)
+  /\ model_obs e2 (apply_modifiers e1 1 (run_prog e1 p)) = model_obs e2 (apply_modifiers e2 1 (run_prog e2 p)).
+Proof. exact observed_after_change. Qed.
+Print Assumptions C04_observation_after_settings_change_comparable.
